@@ -362,6 +362,15 @@ func finish(c *Ctx, pd *propDef) int {
 				continue
 			}
 		}
+		if !inBase && strings.Contains(it.Name, "/frame:") {
+			// a new store / append / copy into storage that existed at entry, in a function that was run on the pinned
+			// tree and had every frame obligation discharged (or wrote nothing at all)
+			if root := it.Name[:strings.Index(it.Name, "/")]; ownFrameAllDischarged(c.Baseline, root) {
+				regressed[it.Name] = "new write into storage that existed at entry, in a function all of whose frame obligations held on the pinned tree"
+				needReplay = append(needReplay, it)
+				continue
+			}
+		}
 		if !inBase && strings.Contains(it.Name, "/safe:") && !strings.Contains(it.Name, "/via ") {
 			// a new fault-capable instruction in a function whose own safety obligations were all discharged on the
 			// pinned tree: the function was proved safe for every input and no longer is
@@ -475,7 +484,7 @@ func finish(c *Ctx, pd *propDef) int {
 		switch {
 		case oc != nil && oc.Ran && oc.Failed:
 			viols = append(viols, viol{it, oc, "counterexample replayed on the real code"})
-		case regressed[it.Name] != "" && sameCode:
+		case regressed[it.Name] != "" && sameCode && !strings.Contains(it.Name, "/lemma@"):
 			// the function (and what it calls) compiles to the same code as on the pinned tree with the names of
 			// locals erased: only names, comments or layout changed, so a lost proof can only mean that the contract
 			// text names something that was renamed
@@ -673,6 +682,12 @@ func clauseKey(name string) string {
 	if strings.Contains(name, "/operand-kept@") {
 		return name[:strings.Index(name, "/")] + "/operand-kept@"
 	}
+	if i := strings.Index(name, "/accepts@"); i >= 0 {
+		// accepts@<label>:<raise site>[#n]: every raise site is an instance of the clause <label>
+		if j := strings.Index(name[i+9:], ":"); j >= 0 {
+			return name[:i+9+j]
+		}
+	}
 	return clauseSuffixRe.ReplaceAllString(name, "")
 }
 
@@ -682,7 +697,7 @@ func isContractClause(name string) bool {
 		return false
 	}
 	rest := name[i+1:]
-	for _, k := range []string{"post@", "at-eval@", "pre@", "trace@", "on-call@", "on-store@", "on-map-update@", "on-map-delete@", "no-store@", "must-defer@", "full-loop@", "operand-kept@", "confine@", "on-slice@", "after-loop@", "no-map-delete@"} {
+	for _, k := range []string{"post@", "at-eval@", "pre@", "trace@", "on-call@", "on-store@", "on-map-update@", "on-map-delete@", "no-store@", "must-defer@", "full-loop@", "operand-kept@", "confine@", "on-slice@", "after-loop@", "no-map-delete@", "accepts@", "loop-exit@"} {
 		if strings.HasPrefix(rest, k) {
 			return true
 		}
@@ -701,6 +716,20 @@ func clauseAllDischarged(base map[string]BaseEntry, key string) (all bool, seen 
 		}
 	}
 	return
+}
+
+// ownFrameAllDischarged: the function was run on the pinned tree (its shape is in the baseline) and none of its
+// frame obligations was left undischarged there.
+func ownFrameAllDischarged(base map[string]BaseEntry, root string) bool {
+	if _, ok := base["shape:"+root]; !ok {
+		return false
+	}
+	for n, be := range base {
+		if strings.HasPrefix(n, root+"/frame:") && be.Status != "discharged" {
+			return false
+		}
+	}
+	return true
 }
 
 // ownSafetyAllDischarged: the baseline holds safety obligations of the function's own instructions (not of inlined
